@@ -519,22 +519,14 @@ class ShortTimeFourierTransformFrameComputer(LinearFilterBankFrameComputer):
             self._first_frame = False
         rem_len = total_len - num_frames * frame_shift
         assert rem_len < frame_length
-        if rem_len > 0:
-            throw_away = total_len - rem_len
-            if throw_away < buf_len:
-                rem_ring_len = buf_len - throw_away
-                assert rem_ring_len < rem_len or (
-                    rem_ring_len <= rem_len and not len(chunk)
-                )
-                self._buf[
-                    self._frame_length
-                    - rem_len : self._frame_length
-                    - rem_len
-                    + rem_ring_len
-                ] = self._buf[self._frame_length - rem_ring_len :]
-                self._buf[self._frame_length - (rem_len - rem_ring_len) :] = chunk
-            else:
-                self._buf[-rem_len:] = chunk[-rem_len:]
+        # keep the most recent samples in the buffer. The last rem_len of them
+        # are the unconsumed remainder; the ones before are the history that
+        # finalize needs in order to reflect the true tail of the signal
+        if chunk_len >= self._frame_length:
+            self._buf[:] = chunk[chunk_len - self._frame_length :]
+        elif chunk_len > 0:
+            self._buf[: self._frame_length - chunk_len] = self._buf[chunk_len:]
+            self._buf[self._frame_length - chunk_len :] = chunk
         self._buf_len = rem_len
         self._started = True
         return coeffs
@@ -561,7 +553,15 @@ class ShortTimeFourierTransformFrameComputer(LinearFilterBankFrameComputer):
             pad_right = (num_frames - 1) * frame_shift + frame_length - buf_len
             pad_right -= pad_left
             coeffs = np.empty((num_frames, self.num_coeffs), dtype=self._chunk_dtype)
-            frames = np.pad(self._buf[-buf_len:], (pad_left, pad_right), "symmetric",)
+            if self._first_frame:
+                # no frame yet: the buffer's tail is the whole signal
+                hist = self._buf[frame_length - buf_len :]
+            else:
+                # the whole buffer is the tail of the signal; its last buf_len
+                # samples have not been covered by a frame shift yet
+                hist = self._buf
+            frames = np.pad(hist, (pad_left, pad_right), "symmetric")
+            frames = frames[len(hist) - buf_len :]
             for frame_idx in range(num_frames):
                 frame = frames[
                     frame_idx * frame_shift : frame_idx * frame_shift + frame_length
